@@ -102,6 +102,17 @@ def interpret_paths(cmds, fname, actual_args, extra_vars, isdir):
                     take, decisions, nd = decide(cond, decisions, nd, pc)
                 elif len(words) == 3 and words[1] == "GREATER" and words[0] == "${ARGC}":
                     take = argc > int(words[2])
+                elif len(args) == 3 and words[1] in ("STREQUAL",) and args[0][0] == CMakeParser.Quoted_argument and args[2][0] == CMakeParser.Quoted_argument:
+                    (l_,) = env.expand(*args[0]); (r_,) = env.expand(*args[2])
+                    lz, rz = as_arg(l_), as_arg(r_)
+                    if is_string_value(lz) and is_string_value(rz):
+                        take = lz.as_string() == rz.as_string()
+                    else:
+                        take, decisions, nd = decide(lz == rz, decisions, nd, pc)
+                elif len(args) == 1 and args[0][0] != CMakeParser.Quoted_argument and REF.fullmatch(words[0]) is None and not words[0].startswith("$"):
+                    # if(<variable>): true iff the variable holds a non-empty list whose value is not a false constant -- here: non-empty
+                    v_ = env.vars.get(words[0], [])
+                    take = len(v_) > 0
                 else: raise Unsupported("if(" + " ".join(words) + ")")
                 if take: stack.append(True)
                 else: skip = 1
@@ -137,6 +148,12 @@ def interpret_paths(cmds, fname, actual_args, extra_vars, isdir):
                     if not dup:
                         keep.append(e)
                 env.vars[var] = keep
+            elif name == "return":
+                break
+            elif name == "file" and args and args[0][1] in ("GLOB", "GLOB_RECURSE") and len(args) >= 2:
+                # the file system is environment: the glob result is an arbitrary list -- empty, or some non-empty list
+                nonempty, decisions, nd = decide(Bool("glob_%d_nonempty" % nd), decisions, nd, pc)
+                env.vars[args[1][1]] = [String("glob_%d_first" % nd)] if nonempty else []
             elif name == "get_filename_component" and len(args) >= 3:
                 # get_filename_component(<var> <path> <mode>): an uninterpreted function of the path per mode -- whatever it
                 # computes, the result is not known to equal the path as given
